@@ -2,7 +2,7 @@
    AGV events fire exactly when due by the clock invariant of C12). *)
 From Coq Require Import List ZArith Bool.
 From JSL Require Import Base.Res Base.ListX SM.Types SM.Util SM.Handler SM.Step SM.Inv
-  SMP.Post SMP.PostApply SMP.Offers SMP.Clock SMP.ClockMain SMP.WF SMP.Reflect SMP.Feasible SMP.Unique SM.Middleware SMP.StepInv SMP.LiftSide SMP.OutputDone SMP.LiftProv SMP.ProvBatch SMP.Deliver SM.ExampleShift SMP.Durations SMP.Travel.
+  SMP.Post SMP.PostApply SMP.Offers SMP.Clock SMP.ClockMain SMP.WF SMP.Reflect SMP.Feasible SMP.Unique SM.Middleware SMP.StepInv SMP.LiftSide SMP.OutputDone SMP.LiftProv SMP.ProvBatch SMP.Deliver SM.ExampleShift SMP.Durations SMP.Travel SM.Events SMP.EventsRun.
 Import ListNotations.
 
 (* dispatch: the AGV reaches the pickup point exactly travel(where it stands -> where the job lies)
@@ -248,3 +248,16 @@ Theorem C07_delivered_to_the_machine_of_the_next_operation_micro_states_every_in
     forall tr y, In (tr, y) lg -> pre_ok_b y = true.
 Proof. intros sigma i fuel x0 joker0 ta r m a r' m' lg Hnn. apply run_micro_pre_ok; auto. Qed.
 Print Assumptions C07_delivered_to_the_machine_of_the_next_operation_micro_states_every_instance.
+
+(* over whole runs of every instance: every TRANSIT -> OUTAGE (delivery) of every micro-log appends the job at the back of the
+   pre-buffer of the route's destination machine (or the destination buffer), leaves the AGV empty, unclaimed and standing at the
+   destination, and blocks it for exactly the longest outage sampled now as configured (ev_deliver, with the other proved event
+   clauses, along the witnessed chain of applications; SMP/EventsOk.v, EventsRun.v) *)
+Theorem C07_delivery_events_hold_along_every_run :
+  forall (sigma : oracle) (i : inst) (fuel : nat) (x0 : state) (joker0 : Z) (ta : bool) (r : result) (m : mw)
+         (a : Z) (r' : result) (m' : mw) (lg : mlog),
+    inst_nonneg_b i = true ->
+    clock_b x0 = true -> wfs_b i x0 = true -> fresh2_b i x0 = true -> nodep_b x0 = true -> pre_ok_b x0 = true ->
+    reach sigma i fuel x0 joker0 ta r m -> mw_step sigma i fuel r m a = MOk r' m' lg -> chain_events i (r_x r) lg.
+Proof. intros sigma i fuel x0 joker0 ta r m a r' m' lg Hnn. apply run_events_ok; auto. Qed.
+Print Assumptions C07_delivery_events_hold_along_every_run.
